@@ -571,6 +571,37 @@ func c10(c *core.Ctx) {
 	})
 	// the key buffer is the caller's: successive keys written into ONE scratch buffer (or a wiped buffer followed by a
 	// genuinely all-zero key) must give cipher objects keyed with the contents at the time of each NewCrypto call
+	// two different keys of one size that agree in a weak fingerprint (a key-schedule cache keyed by a checksum would mix them up)
+	c.Family("colliding-keys", c.N(3*len(core.Fingerprints)*2, 3*len(core.Fingerprints)*100), func(k *core.Case) {
+		kl := []int{16, 24, 32}[k.Index%3]
+		fp := core.Fingerprints[k.Index/3%len(core.Fingerprints)]
+		k1 := k.R.Bytes(kl)
+		k2 := append([]byte{}, k1...)
+		k2[k.R.Intn(kl)] ^= 0x40
+		if !core.PatchToCollide(k2, k.R.Intn(kl-fp.Bytes+1), fp, fp.F(k1)) || bytes.Equal(k1, k2) {
+			return
+		}
+		for round, kk := range [][]byte{k1, k2, k1} {
+			k.Eval(1)
+			ci, err := newCipher(kl, append([]byte{}, kk...))
+			if err != nil {
+				k.Violate("error", "NewCrypto-error/colliding-keys", err.Error(), nil)
+				return
+			}
+			pt := k.R.Bytes(k.R.Intn(60))
+			ct, err := ci.Encrypt(append([]byte{}, pt...))
+			if err != nil {
+				k.Violate("error", "encrypt-error/colliding-keys", err.Error(), nil)
+				return
+			}
+			raw, derr := ref.CBCDecrypt(kk, ct[:16], ct[16:])
+			if derr != nil || !bytes.HasPrefix(raw, pt) {
+				k.Violate("history", "cipher-object-keyed-with-a-colliding-earlier-key/"+fp.Name, fmt.Sprintf("object %d does not encrypt under its own key", round+1), M{"key1": core.Hex(k1), "key2": core.Hex(k2)})
+				return
+			}
+		}
+		k.Count("colliding_key_pairs", 1)
+	})
 	c.Family("key-buffer-reuse", c.N(3*40, 3*4000), func(k *core.Case) {
 		noiseFor(k)
 		kl := []int{16, 24, 32}[k.Index%3]
@@ -820,7 +851,7 @@ func c10(c *core.Ctx) {
 		k.Distinct(fmt.Sprintf("hist|%d|%d", kl, k.Index/3%8))
 	})
 	freshFamily(c, "C10", "fresh-process", c.N(1, 30))
-	c.Require("fresh_process_cases_ok", "long_lived_cipher_object_histories", "wrong_size_key_already_in_use_under_its_own_size", "key_buffer_reuse_cases", "short_read_sources", "fault_at_read_0", "fault_at_read_1", "lib_pad_0", "lib_pad_15")
+	c.Require("colliding_key_pairs", "fresh_process_cases_ok", "long_lived_cipher_object_histories", "wrong_size_key_already_in_use_under_its_own_size", "key_buffer_reuse_cases", "short_read_sources", "fault_at_read_0", "fault_at_read_1", "lib_pad_0", "lib_pad_15")
 }
 
 var _ = message.TypeSK
